@@ -273,7 +273,7 @@ def invalid_cases(draw):
     nr, nc = draw(st.integers(2, 6)), draw(st.integers(2, 6))
     return dict(nr=nr, nc=nc, east=draw(axis(nc)), north=draw(axis(nr)), seed=draw(st.integers(0, 10**6)), int_data=False,
                 kind=draw(st.sampled_from(["not_meshgrid_e", "not_meshgrid_n", "names_short", "names_long", "extra_names_none",
-                                           "extra_names_count", "mixed_ndim", "from_1d_given_2d", "to_1d_not_meshgrid", "names_none", "drift_e", "drift_n", "drift_to_1d"])),
+                                           "extra_names_count", "mixed_ndim", "from_1d_given_2d", "to_1d_not_meshgrid", "names_none", "drift_e", "drift_n", "drift_to_1d", "row_northing_varies", "column_easting_varies", "row_to_1d"])),
                 i=draw(st.integers(0, nr - 1)), j=draw(st.integers(0, nc - 1)))
 
 
@@ -293,7 +293,13 @@ def check_invalid(case, ctx):
     dn2, de2 = np.meshgrid(base + 10.0 * np.arange(7), base + 10.0 * np.arange(61), indexing="ij")  # 7 rows, 61 columns
     drift_n = dn2 + (5e-6 * base) * np.arange(61)[None, :]
     dd = np.zeros(de.shape)
+    # a single row whose northing changes along the row, a single column whose easting changes down the column: 2-D inputs that are not meshgrids
+    row_e, row_n = np.array([[1.0, 2.0, 3.0, 4.0]]), np.array([[5.0, 6.0, 7.0, 8.0]])
+    col_e, col_n = np.array([[1.0], [2.0], [3.0]]), np.array([[5.0], [6.0], [7.0]])
     calls = {
+        "row_northing_varies": lambda: vd.make_xarray_grid((row_e, row_n), np.zeros((1, 4)), "a"),
+        "column_easting_varies": lambda: vd.make_xarray_grid((col_e, col_n), np.zeros((3, 1)), "a"),
+        "row_to_1d": lambda: vd.utils.meshgrid_to_1d((row_e, row_n)),
         "drift_e": lambda: vd.make_xarray_grid((drift_e, dn), dd, "a"),
         "drift_n": lambda: vd.make_xarray_grid((de2, drift_n), dd.T, "a"),
         "drift_to_1d": lambda: vd.utils.meshgrid_to_1d((drift_e, dn)),
